@@ -640,10 +640,10 @@ def install():
                 elif name == "_handle_call" and len(args) in (2, 3):
                     if isinstance(args[0], CallSpy):
                         args = (args[0].fn,) + tuple(args[1:])
-                    kw = args[2] if len(args) == 3 else ()
-                    if type(args[1]) is tuple and type(kw) is tuple:
+                    kwargs_v = args[2] if len(args) == 3 else ()
+                    if type(args[1]) is tuple and type(kwargs_v) is tuple:
                         # the call itself (`obj(*args, **dict(kwargs))`) is reached only past the two type checks
-                        r.touch("call", args[0], "", (args[1], kw))
+                        r.touch("call", args[0], "", (args[1], kwargs_v))
                         touched = True
                 res = orig(self, *args, **kw)
             except BaseException as ex:
